@@ -702,7 +702,7 @@ func genC08(t *rapid.T) *c08Case {
 		switch {
 		case wrong:
 			st = pick(t, "wrongstep", []c08Step{{Kind: "field", Name: "nosuch"}, {Kind: "field", Name: "priv"}, {Kind: "field", Name: "b"}, {Kind: "field", Name: "name"}, {Kind: "field", Name: "count"}, {Kind: "field", Name: "a"},
-				{Kind: "field", Name: "list"}, {Kind: "field", Name: "greeting"}, {Kind: "field", Name: "hello", Call: true, Args: []c08A{{K: "str", S: "x"}}}, {Kind: "field", Name: "NAME"}, {Kind: "sub_str", Name: "name"}, {Kind: "sub_str", Name: "priv"}, {Kind: "index", Idx: 9}, {Kind: "sub_int", Idx: 9},
+				{Kind: "field", Name: "list"}, {Kind: "field", Name: "greeting"}, {Kind: "field", Name: "hello", Call: true, Args: []c08A{{K: "str", S: "x"}}}, {Kind: "field", Name: "NAME"}, {Kind: "sub_str", Name: "name"}, {Kind: "sub_str", Name: "priv"}, {Kind: "sub_str", Name: "Greeting"}, {Kind: "sub_str", Name: "Hello"}, {Kind: "sub_str", Name: "Name"}, {Kind: "sub_str", Name: "Count"}, {Kind: "sub_str", Name: "PHello"}, {Kind: "index", Idx: 9}, {Kind: "sub_int", Idx: 9},
 				{Kind: "sub_var", Name: "neg"}, {Kind: "sub_var", Name: "idx"}, {Kind: "sub_str", Name: "zz"}, {Kind: "field", Name: "Hello", Call: true}, {Kind: "field", Name: "k1", Call: true},
 				{Kind: "field", Name: "Name", Call: true, Args: []c08A{{K: "int", I: 1}}}, {Kind: "field", Name: "Hello", Call: true, Args: []c08A{{K: "int", I: 1}}}})
 		case cur.K == "zs" && cur.T != "nilptr":
